@@ -3,7 +3,7 @@ CONSTANTS
   MaxWrites = 2
   MaxCrashes = 2
   ClassSel = "sched"
-  Defects = {"deleteBeforeFlush", "renorm", "keyCollision", "intM"}
+  Defects = {"deleteBeforeFlush", "renorm"}
   Emit = TRUE
 INVARIANTS TypeOK EmitInv
 CHECK_DEADLOCK FALSE
